@@ -303,7 +303,7 @@ fn ultra_case(ei: usize) -> impl Fn(Tier) -> BoxedStrategy<Case> + Send + Sync {
     move |tier: Tier| {
         let en = TABLE[ei];
         (prop_oneof![3 => en.min_n..=en.min_n + 6, 1 => 9usize..=24], 0usize..48, any::<u64>(), 0i64..4)
-            .prop_map(move |(n, p, seed, shape)| Case { spec: Some((en.mk)(n, p)), ints: vec![ei as i64, 2, n as i64, (seed >> 1) as i64, tier.pick(135_000, 1_100_000) as i64, shape], a: Rat(1, 1), ..Default::default() })
+            .prop_map(move |(n, p, seed, shape)| Case { spec: Some((en.mk)(n, p)), ints: vec![ei as i64, 2, n as i64, (seed >> 1) as i64, { let _ = tier; 135_000i64 }, shape], a: Rat(1, 1), ..Default::default() })
             .boxed()
     }
 }
@@ -351,7 +351,7 @@ pub fn clauses() -> Vec<Clause> {
         }
         if !matches!(en.name, "Echo" | "GTE" | "LTE" | "Tanh" | "PFE") {
             // (PFE: every run ends at the listed finding C07/range/PFE, nothing further would be explored)
-            v.push(Clause::generated("C07", format!("C07/ultra/{}/Q", en.name), format!("{}: {b}. Ultra-long histories: 135 000 values (thorough 1.1e6; past 2^16 and 2^17 updates) on the 1/8 grid derived from a generated seed (wide noise; walk with plateaus; zero stretches; ties around a level), N from the minimum to +6 (1 in 4: 9..24); the crate's code at the exact scalar, the bound checked at every step without rounding slack. Non-trivial: >= 70 000 outputs checked.", en.name), 1, 20, ultra_case(ei), ultra_check).with_shard(1));
+            v.push(Clause::generated("C07", format!("C07/ultra/{}/Q", en.name), format!("{}: {b}. Ultra-long histories: 135 000 values (both tiers: the exact scalar's arena of big values is bounded; past 2^16 and 2^17 updates) on the 1/8 grid derived from a generated seed (wide noise; walk with plateaus; zero stretches; ties around a level), N from the minimum to +6 (1 in 4: 9..24); the crate's code at the exact scalar, the bound checked at every step without rounding slack. Non-trivial: >= 70 000 outputs checked.", en.name), 1, 20, ultra_case(ei), ultra_check).with_shard(1));
         }
     }
     v
